@@ -288,7 +288,7 @@ pub fn check_builder_cli(c: &BuilderCliCase) -> Verdict {
     }
 }
 
-fn builder_cli_case() -> impl Strategy<Value = BuilderCliCase> {
+pub fn builder_cli_case() -> impl Strategy<Value = BuilderCliCase> {
     let opts = |p: f64| {
         c15::runner_opts().prop_map(move |mut o| {
             let _ = p;
